@@ -315,6 +315,8 @@ func (p *plugin) start(name, version string) (err error) {
 				return fmt.Errorf("failed to register plugin: %w", err)
 			}
 		case <-p.closeC:
+			p.close()
+			p.stop()
 			return fmt.Errorf("failed to register plugin, connection closed")
 		case <-time.After(timeout):
 			p.close()
